@@ -271,8 +271,8 @@ struct TopoMachine : Machine {
         p.ops.push_back(o);
       }
       if (tier == "thorough") {   // the enumerated part of the fault space: chunks drawn by the seed, coverage reported by distinct sets
-        for (int s = 0; s < 2; s++) {   // a chunk of pairs in half of the runs, a chunk of singles in an eighth
-          bool pair = s == 0; if (!ops.chance(1, pair ? 2 : 8)) continue;
+        for (int s = 0; s < 2; s++) {   // a chunk of 250 pairs in every run (15 000 runs draw 14x the 1 041 chunks), a chunk of singles in an eighth
+          bool pair = s == 0; if (!pair && !ops.chance(1, 8)) continue;
           Op o("snap_enum"); snap_args(o, ops, false);
           for (size_t k = 0; k < o.kv.size();) { if (o.kv[k].first == "snap" || o.kv[k].first == "nrem") o.kv.erase(o.kv.begin() + (long)k); else k++; }   // the element is chosen by `from`
           o.sets("which", pair ? "pair" : "single").setu("from", ops.next() >> 1).set("count", pair ? 250 : 40);
